@@ -3,7 +3,7 @@
 From Coq Require Import ZArith List Bool Lia Znumtheory.
 From PySnark.Base Require Import FieldZ Bits.
 From PySnark.Model Require Import Lc Sym Good Gadgets Api.
-From PySnark.Proofs Require Import Meta Frame Wp WpBase GadgetsOK Values FxValues.
+From PySnark.Proofs Require Import Meta Frame Wp WpBase GadgetsOK Values FxValues BitValues.
 Import ListNotations.
 Open Scope Z_scope.
 
@@ -191,6 +191,21 @@ Theorem op_fx_sub o o' f g : returns (pyop c OSub (PFxp o f) (PFxp o' g)) s sg (
 Proof. fxd. cbn [ret wp is_fx]. opv. ring. Qed.
 Theorem op_fx_mul_int o f k : returns (pyop c OMul (PFxp o f) (PInt k)) s sg (is_fx (fun r => r = v f * k)).
 Proof. fxd. cbn [ret wp is_fx]. cbn [sval scale]. esimp. reflexivity. Qed.
+(* mixed operand classes: an integer k or a secret integer y stands for the number k (resp. y), i.e. the representation k * 2^r *)
+Ltac fxd2 := unfold Values.returns, pyop, FUEL;
+  cbn [binop dispatch fxp_dunder' fxp_dunder add_scaling mkfxp ensurefxp lc_dunder bind ret uneg same_class m_check_positive m_check_zero boolr fxpr NI].
+Theorem op_fx_add_int o f k : returns (pyop c OAdd (PFxp o f) (PInt k)) s sg (is_fx (fun r => r = v f + k * Rz)).
+Proof. fxd2. cbn [ret wp is_fx]. opv. reflexivity. Qed.
+Theorem op_fx_add_lc o f y : returns (pyop c OAdd (PFxp o f) (PLC y)) s sg (is_fx (fun r => r = v f + v y * Rz)).
+Proof. fxd2. cbn [ret wp is_fx]. cbn [sval add scale]. esimp. reflexivity. Qed.
+Theorem op_fx_mul_lc o f y : returns (pyop c OMul (PFxp o f) (PLC y)) s sg (is_fx (fun r => r = v f * v y)).
+Proof. fxd2. apply wp_bind. apply wp_bind. apply mul_wp; [exact I|]. intros m s' sg' _ _ Vm _ _. cbn [ret wp is_fx]. exact Vm. Qed.
+Theorem op_fx_lt_lc o f y : returns (pyop c OLt (PFxp o f) (PLC y)) s sg (is_bool (fun r => r = b2z (v f <? v y * Rz))).
+Proof.
+  fxd2. repeat apply wp_bind. apply check_positive_wp; [exact I|]. intros r s' sg' _ _ V. cbn [ret wp is_bool]. rewrite (V Chk).
+  match goal with |- context [ve sg (sval ?d)] => replace (ve sg (sval d)) with (v y * Rz - v f - 1) by (unfold addc, subc, sub; cbn [sval add neg constv scale]; esimp; ring) end.
+  destruct (Z.leb_spec 0 (v y * Rz - v f - 1)), (Z.ltb_spec (v f) (v y * Rz)); try reflexivity; lia.
+Qed.
 (* product and quotient through the operator dispatch: floor(rep a * rep b / 2^r) and floor(rep a * 2^r / rep b) *)
 Theorem op_fx_mul o o' f g : returns (pyop c OMul (PFxp o f) (PFxp o' g)) s sg (is_fx (fun r => r = (v f * v g) / Rz)).
 Proof.
@@ -224,5 +239,34 @@ Qed.
 Theorem op_bool_not o a : returns (unop c (pyop c) UInvert (PBool o a)) s sg (is_bool (fun r => r = 1 - v a)).
 Proof.
   unfold Values.returns, unop, mkbool, raise_if. cbn [bind ret wp]. intros _ _. cbn [is_bool]. unfold bnot, rsubc. cbn [sval add neg constv]. esimp. ring.
+Qed.
+(* ---- bitwise operators on whole numbers: Python's &, |, ^ on the operands reduced to bitlength bits ---- *)
+Local Notation nb := (Z.of_nat (nbits c)).
+Theorem op_and x y : vscopedb (npub s) (npriv s) (sval y) = true -> returns (pyop c OAnd (PLC x) (PLC y)) s sg (is_lc (fun r => r = Z.land (v x) (v y) mod 2 ^ nb)).
+Proof.
+  intros Cy. unfold Values.returns, pyop, FUEL. cbn [binop dispatch lc_dunder bind ret same_class NI]. apply wp_bind. unfold lcr. apply wp_bind.
+  apply (land_value ins ig c); [exact I|exact Cy|]. intros r s' sg' _ V. cbn [ret wp is_lc]. exact V.
+Qed.
+Theorem op_or x y : vscopedb (npub s) (npriv s) (sval y) = true -> returns (pyop c OOr (PLC x) (PLC y)) s sg (is_lc (fun r => r = Z.lor (v x) (v y) mod 2 ^ nb)).
+Proof.
+  intros Cy. unfold Values.returns, pyop, FUEL. cbn [binop dispatch lc_dunder bind ret same_class NI]. apply wp_bind. unfold lcr. apply wp_bind.
+  apply (lor_value ins ig c); [exact I|exact Cy|]. intros r s' sg' _ V. cbn [ret wp is_lc]. exact V.
+Qed.
+Theorem op_xor x y : vscopedb (npub s) (npriv s) (sval y) = true -> returns (pyop c OXor (PLC x) (PLC y)) s sg (is_lc (fun r => r = Z.lxor (v x) (v y) mod 2 ^ nb)).
+Proof.
+  intros Cy. unfold Values.returns, pyop, FUEL. cbn [binop dispatch lc_dunder bind ret same_class NI]. apply wp_bind. unfold lcr. apply wp_bind.
+  apply (lxor_value ins ig c); [exact I|exact Cy|]. intros r s' sg' _ V. cbn [ret wp is_lc]. exact V.
+Qed.
+(* x >> k for a public k >= 0: floor(x / 2^k) on the operand reduced to bitlength bits (the plain int 0 when k >= bitlength) *)
+Theorem op_rshift_int x k : 0 <= k -> returns (pyop c ORshift (PLC x) (PInt k)) s sg
+  (fun r sg' => match r with
+                | PLC q => ve sg' (sval q) = Z.shiftr (v x) k mod 2 ^ Z.of_nat (nbits c - Z.to_nat k)
+                | PInt z => z = 0 /\ (nbits c <= Z.to_nat k)%nat
+                | _ => False end).
+Proof.
+  intros Hk. unfold Values.returns, pyop, FUEL. cbn [binop dispatch lc_dunder bind ret same_class NI].
+  destruct (Z.ltb_spec k 0); [lia|]. apply wp_bind. unfold py_slice_from. destruct (Z.leb_spec 0 k); [|lia].
+  apply (rshift_value ins ig c x (Z.to_nat k)); [exact I|]. intros r s' sg' _ V. rewrite Z2Nat.id in V by lia.
+  destruct r; try contradiction; cbn [ret wp]; exact V.
 Qed.
 End OV.
